@@ -42,6 +42,80 @@ def family_inputs(run, n, count):
         yield gen.game_inputs(v, gen.knowledge(run.rng, n), n, rng=run.rng)
 
 
+def structure_check(run, upto):
+    """Exhaustive over player counts: the memoised helper every cached computer reads - ids, the relation matrix
+    (1 proper non-empty subset, 2 proper superset, 0 self, -2 empty, -1 otherwise) and the processing order ("smaller
+    coalitions first": sizes non-decreasing along the order, every coalition once) - against bit arithmetic."""
+    import numpy as np
+    from pyvc.mode import native_pkg
+    b = native_pkg().mod("bounds")
+    f = getattr(b, "_get_sub_super_coalition_structure", None)
+    if f is None:
+        run.exhaustive.append({"label": "relation structure helper", "rows": [], "exhaustive": False,
+                               "space": "helper not present any more: covered by the large-n soundness runs only"})
+        return
+    bad = None
+    for n in range(1, upto + 1):
+        ids, order, rel = f(n)
+        N = 1 << n
+        a = np.arange(N)
+        pop = np.array([bin(c).count("1") for c in range(N)])
+        want = np.full((N, N), -1.0)
+        sub = (a[None, :] & a[:, None]) == a[None, :]          # column is a subset of row
+        sup = (a[None, :] & a[:, None]) == a[:, None]          # column is a superset of row
+        want[sub] = 1
+        want[sup] = 2
+        want[a, a] = 0
+        want[:, 0] = -2
+        ok = (np.array_equal(np.asarray(ids), a) and sorted(np.asarray(order).tolist()) == list(range(N))
+              and bool(np.all(np.diff(pop[np.asarray(order)]) >= 0)) and np.array_equal(np.asarray(rel, dtype=float), want))
+        run.native_evals += 1
+        run.native_distinct.add(("structure", n))
+        if not ok and bad is None:
+            o = np.asarray(order)
+            bad = {"n": n, "order_sorted_by_size": bool(np.all(np.diff(pop[o]) >= 0)) if len(o) == N else False,
+                   "relation_matrix_ok": bool(np.array_equal(np.asarray(rel, dtype=float), want))}
+    run.exhaustive.append({"label": "_get_sub_super_coalition_structure against bit arithmetic", "rows": [{"n_upto": upto, "failure": bad}],
+                           "exhaustive": True, "space": f"n = 1..{upto}"})
+    if bad:
+        run._report_violation(f"structure[n={bad['n']}]/order_and_relations", S.sc_sam, {"n": bad["n"], "reps": 0}, bad, True,
+                              detail={"layer": "exhaustive over player counts", "witness": bad})
+
+
+def large_n_soundness(run, n, count):
+    """Bounded: the real SAM computer (and the registered partials) at a player count above one byte of players."""
+    import numpy as np
+    from functools import partial
+    from pyvc.mode import native_pkg
+    P = native_pkg()
+    b, game_m, co = P.mod("bounds"), P.mod("game"), P.mod("coalitions")
+    fails = 0
+    for i in range(count):
+        v = gen.superadditive_game(run.rng, n, kind=("int", "dyadic")[i % 2], monotone=True)
+        K = sorted(gen.knowledge(run.rng, n, p=(0.0, 0.05, 0.3)[i % 3]))
+        reps = (0, 1, 3)[i % 3]
+        g = game_m.IncompleteCooperativeGame(n, partial(getattr(b, S.SAM_FN), repetitions=reps))
+        g.set_known_values([v[c] for c in K], [co.Coalition(c) for c in K])
+        g.compute_bounds()
+        lo, up = np.asarray(g.get_lower_bounds()), np.asarray(g.get_upper_bounds())
+        va = np.array(v)
+        ok = bool(np.all(lo <= va + 1e-9) and np.all(va <= up + 1e-9))
+        for j in range(n):
+            m = (np.arange(1 << n) >> j) & 1 == 1
+            ok = ok and bool(np.all(lo[np.arange(1 << n)[m] ^ (1 << j)] >= lo[m] - 1e-9))
+        run.native_evals += 1
+        run.native_distinct.add(("large", n, i))
+        if not ok:
+            fails += 1
+            c = int(np.argmax((lo > va + 1e-9) | (va > up + 1e-9)))
+            run._report_violation(f"large[n={n},r={reps}]/contains", S.sc_sam, {"n": n, "reps": reps},
+                                  {"coalition": c, "lower": float(lo[c]), "value": float(va[c]), "upper": float(up[c]), "known": len(K)}, True,
+                                  detail={"layer": "bounded"})
+            break
+    run.bounded.append({"label": f"SAM soundness / monotone lower bounds at n={n}", "evaluations": count, "failures": fails,
+                        "bound": f"{count} seeded coverage-type games x knowledge (minimal, sparse, 30%) x repetitions 0/1/3"})
+
+
 def main(run):
     pkg = run.package()
     run.under_contract(pkg, "bounds", [S.SAM_FN, "_get_sub_super_coalition_structure"])
@@ -85,6 +159,10 @@ def main(run):
             run.bounded_run(f"float.sam[n={n},r={r}]", S.sc_sam, {"n": n, "reps": r},
                             list(bounded_inputs(run, n, cnt)) + list(family_inputs(run, n, cnt if n <= 5 else 2)), tol=1e-9,
                             bound=f"{cnt} seeded coverage-type SAM games + {cnt} games from covg/k_budget/xos/xs/oxs, random K, stale rows")
+    structure_check(run, 10 if run.tier == "quick" else 11)
+    large_n_soundness(run, 9, 3 if run.tier == "quick" else 9)
+    if run.tier != "quick":
+        large_n_soundness(run, 10, 3)
     from rt import instances
     from rt import gen as _gen
     for n, v, K, R in instances.repetition_sensitive(run.rng, 2 if run.tier == "quick" else 8):
